@@ -4,7 +4,7 @@ LEVEL = "other"
 APP = "routee-compass"
 TF = APP + "/src/plugin/output/default/traversal/traversal_output_format.rs"
 wit = KaniUnit("c20_wit", APP, modules=[dict(file=TF, src="c20_formats_wit.rs")], harnesses=[])
-wit.native_witnesses = ["c20_wit_every_route_format_follows_the_edge_sequence"]
+wit.native_witnesses = ["c20_wit_every_route_format_follows_the_edge_sequence", "c20_wit_tree_outputs_have_one_entry_per_branch"]
 rg = VerusUnit("c20_route_geom", "c20_route_geom", rlimit=30, paired_kani=(wit, []))
 uw = KaniUnit("c20_uuid_wit", APP, modules=[dict(file=APP + "/src/plugin/output/default/uuid/plugin.rs", src="c20_uuid_wit.rs")], harnesses=[])
 uw.native_witnesses = ["c20_wit_identifier_table_row_i_is_vertex_i"]
